@@ -559,9 +559,9 @@ class HandlerHistory(Suite):
     slot) over one or two falcon.media.Handlers objects next to a plain dict model.  After every
     step, on every live object, every probe content type (each exact key of the universe, None,
     '*/*', plus 2-6 generated ones: keys with parameters / other spelling / quoted values / q,
-    wildcard forms, '', unsupported, malformed) x 2 default types x raise_not_found in (True, False) must
-    resolve, by identity, to the handler the model designates under the documented rule, or raise
-    HTTPUnsupportedMediaType / return (None, None, None)."""
+    wildcard forms, '', unsupported, malformed) x 2 default types x raise_not_found in
+    (True, False) must resolve, by identity, to the handler the model designates under the
+    documented rule, or raise HTTPUnsupportedMediaType / return (None, None, None)."""
 
     name = 'handler_history'
     budget = {'quick': 6000, 'thorough': 150000}
